@@ -397,6 +397,10 @@ class Flow:
         if not re.match(r"\w+$", t):
             return ("unk", t[:80])
         body = fn.body()
+        # a PathBuf that is modified in place after it was built is not what it was bound to
+        mm = re.search(r"\b%s\s*\.\s*(push|pop|set_file_name|set_extension|as_mut_os_string|clear)\s*\(" % re.escape(t), body)
+        if mm:
+            return ("unk", "%s is modified in place (.%s) in fn %s" % (t, mm.group(1), fn.name))
         if re.search(r"\bfor\s+%s\s+in\s+(&\s*)?self\.paths(\.iter\(\))?\s*\{" % re.escape(t), body):
             return ("root", "RSymbolDir")
         binds = re.findall(r"\blet\s+(?:mut\s+)?%s\s*(?::[^=;]*)?=\s*([^;]*);" % re.escape(t), body)
